@@ -1,4 +1,9 @@
+mod c12;
+mod corpus;
 mod exec;
+mod findings;
+mod gen;
+mod pool;
 mod scen;
 mod simlibc;
 mod util;
@@ -40,6 +45,54 @@ fn main() {
                 Ok(m) => println!("{m}"),
                 Err(e) => {
                     println!("HARNESS-ERROR seam: {e}");
+                    std::process::exit(2);
+                }
+            }
+        }
+        "check" => {
+            let prop = args.get(2).cloned().unwrap_or_default();
+            let tier = std::env::var("VERIF_TIER").ok().or(args.get(3).cloned()).unwrap_or_else(|| "quick".into());
+            let tier = args.get(3).cloned().unwrap_or(tier);
+            let seed: u64 = std::env::var("VERIF_SEED").ok().and_then(|v| v.parse().ok()).unwrap_or(20260925);
+            let verif = std::env::var("VERIF_DIR").unwrap_or_else(|_| "/verif".into());
+            let scratch = pool::scratch_base("seam");
+            let seam = exec::seam_selfcheck(&scratch);
+            let _ = std::fs::remove_dir_all(&scratch);
+            if let Err(e) = seam {
+                println!("HARNESS-ERROR seam: {e}");
+                std::process::exit(2);
+            }
+            println!("VERIF_SEED={seed} tier={tier} property={prop}");
+            let code = match prop.as_str() {
+                "C12" => c12::run_check(&tier, seed, &verif).exit,
+                _ => {
+                    eprintln!("unknown property {prop}");
+                    2
+                }
+            };
+            std::process::exit(code);
+        }
+        "replay" => {
+            let path = args.get(2).cloned().unwrap_or_default();
+            let text = read_input(Some(&path));
+            let v: serde_json::Value = serde_json::from_str(&text).expect("replay json");
+            match v["property"].as_str() {
+                Some("C12") => {
+                    let sc: scen::C12Scenario = serde_json::from_value(v).expect("C12 scenario");
+                    match c12::replay(&sc) {
+                        Some(d) => {
+                            println!("reproduced: {d}");
+                            println!("VIOLATION property=C12 replay={path}");
+                            std::process::exit(1);
+                        }
+                        None => {
+                            println!("not reproduced");
+                            std::process::exit(0);
+                        }
+                    }
+                }
+                _ => {
+                    eprintln!("unknown property in replay file");
                     std::process::exit(2);
                 }
             }
